@@ -119,17 +119,18 @@ def run(tier):
     ]
     V.build_harness("c13")
     nh, steps = (8, 50) if tier == "quick" else (60, 120)
-    profiles = [0, 2, 3]
+    profiles = [4, 0, 2, 3]          # 4 = tiny epochs: uncle candidates meet the next epoch's templates
     with cf.ThreadPoolExecutor(max_workers=1) as bg:
         fut = bg.submit(phase_mc, c, tier)
-        seeds = [(V.seed() * 1000 + i, steps, profiles[i % 3], i) for i in range(nh)]
+        seeds = [(V.seed() * 1000 + i, steps, profiles[i % 4], i) for i in range(nh)]
         with cf.ThreadPoolExecutor(max_workers=6) as ex:
             docs = list(ex.map(lambda a: run_random(*a), seeds))
         judged = 0
         with cf.ThreadPoolExecutor(max_workers=8) as ex:
             results = list(ex.map(lambda x: validate(c, "random_%d" % x[0], x[1], {"source": "random", "args": x[1]["summary"]}), list(enumerate(docs))))
         tot = {"templates": 0, "judged_ok": 0, "with_commits": 0, "with_uncles": 0, "before_pool_sync": 0, "settled": 0, "on_stale_parent": 0,
-               "max_commits": 0, "reorgs": 0, "histories": len(docs)}
+               "max_commits": 0, "reorgs": 0, "histories": len(docs),
+               "with_uncle_candidates_right_after_epoch_boundary": 0, "uncles_included_after_boundary": 0}
         for (ok, nev), d in zip(results, docs):
             evs = d["events"][:nev] if not ok else d["events"]
             tips = []
@@ -146,6 +147,8 @@ def run(tier):
                 tot["settled"] += bool(e["settled"])
                 tot["on_stale_parent"] += (e["parent"] != tips and e["parent"] != "genesis")
                 tot["max_commits"] = max(tot["max_commits"], len(e["txs"]))
+                tot["with_uncle_candidates_right_after_epoch_boundary"] += bool(e.get("boundary"))
+                tot["uncles_included_after_boundary"] += bool(e.get("boundary")) and e.get("uncles", 0) > 0
                 c.case({"h": d["summary"]["seed"], "parent": e["parent"], "txs": e["txs"], "props": e["props"], "m": e["moment"]},
                        bool(e["txs"]) or e.get("uncles", 0) > 0 or e["moment"] != "after-operation")
             tot["reorgs"] += d["summary"]["reorgs"]
@@ -154,6 +157,9 @@ def run(tier):
     c.set("templates", tot)
     if tot["templates"] < 5 * nh or tot["with_commits"] == 0 or tot["before_pool_sync"] == 0 or tot["reorgs"] == 0:
         raise V.ToolError("vacuous run: %s" % tot)
+    # named vacuity case: "template with uncle candidates right after an epoch boundary"
+    if tot["with_uncle_candidates_right_after_epoch_boundary"] < 3:
+        raise V.ToolError("vacuous: no template was taken with uncle candidates of the previous epoch alive: %s" % tot)
     for d in docs[:2]:
         for e in d["events"]:
             if e["ev"] == "Template" and e["txs"]:
